@@ -31,7 +31,7 @@ type idxSiteRes struct {
 	lower  bool
 	upper  bool
 	fact   string
-	banned bool // a call to the function holding the site was not stepped into
+	banned bool  // a call to the function holding the site was not stepped into
 	it, lt *Term // the index and the table length as terms (of the last path that met the access)
 }
 
